@@ -26,7 +26,8 @@ TECHNIQUE = "machine-checked proof in Coq + model/code correspondence check"
 DESIGN_REF = "DESIGN.md §4 C14"
 RULE = ("hist: a random history (4-33 ops) of deliveries, raw HTTP requests (7 path templates, names escaped in 4 valid ways, "
         "k-th/latest/never-issued ids, right and wrong methods, PATCH bodies (seen true / false / not JSON / empty, each framed with Content-Length, chunked or sent as HTTP/1.0, "
-        "with and without unrelated headers — framing and such headers must not matter), attachment numbers incl. zero-padded ones longer than 20 digits and values beyond 2^32) and calls of every method of "
+        "with and without unrelated headers — framing and such headers must not matter), attachment numbers incl. zero-padded ones longer than 20 digits, signed spellings (-1, -0, +1) and values around 2^31 / 2^32 / 2^63, "
+        "asked for messages that exist, with and without attachments) and calls of every method of "
         "pkg/rest/client, run on the memory and the file store, local/full naming, with and without a base path. "
         "A further stream makes message content unavailable — the content file vanishes (file store), or another client's removal "
         "completes between the manager's look-up and its open (a wrapper around the Store the manager sees) — and asks for the message "
